@@ -1,5 +1,71 @@
-(* C01 -- placeholder until Proofs/C01.v lands. *)
-From GV Require Import Base.Prelude Model.C01.
+(* C01 -- property theorems only.
+   Exact part: coordinates are integer numerators over a common denominator D > 0.
+   Float part: np.mod(x, 1) in binary64, real-number model with Flocq's rounding and the
+   executable PrimFloat twin proved to refine it. *)
+From Coq Require Import Reals.
+From Flocq Require Import Core.
+From GV Require Import Base.Prelude Model.C01 Model.C01F Proofs.C01 Proofs.C01F Proofs.C01P.
+Open Scope Z_scope.
+
+(* reported positions lie in the half-open unit cell and equal the input up to whole
+   lattice translations *)
 Theorem C01_positions_range : forall D x, 0 < D -> 0 <= wrapD D x < D.
-Proof. intros D x H. unfold wrapD. apply Z.mod_pos_bound. exact H. Qed.
+Proof. exact positions_range. Qed.
 Print Assumptions C01_positions_range.
+Theorem C01_positions_congr : forall D x, 0 < D -> exists k, wrapD D x = x + k * D.
+Proof. exact positions_congr. Qed.
+Print Assumptions C01_positions_congr.
+
+(* per-step displacements are minimum-image vectors (each component within half a cell,
+   congruent to the raw difference), unique away from exact half-cell steps *)
+Theorem C01_disp_min_image : forall D, 0 < D -> forall cs d, In d (displacements D cs) -> - D <= 2 * d <= D.
+Proof. exact disp_min_image. Qed.
+Print Assumptions C01_disp_min_image.
+Theorem C01_mi_congr : forall D d, exists k, mi D d = d + k * D.
+Proof. exact mi_congr. Qed.
+Print Assumptions C01_mi_congr.
+Theorem C01_mi_unique : forall D d, 0 < D -> tie D d = false ->
+  forall m, (exists k, m = d + k * D) -> - D <= 2 * m <= D -> m = mi D d.
+Proof. exact mi_unique. Qed.
+Print Assumptions C01_mi_unique.
+Theorem C01_tie_both_valid : forall D d, 0 < D -> tie D d = true -> (2 * mi D d = D \/ 2 * mi D d = - D).
+Proof. exact tie_both_valid. Qed.
+Print Assumptions C01_tie_both_valid.
+
+(* the running sum of the steps, added to the first frame, reproduces every frame modulo 1 *)
+Theorem C01_reconstruction : forall D, 0 < D -> forall c0 r,
+  positions D (c0 :: r) = repositions D c0 (displacements D (c0 :: r)).
+Proof. exact recon. Qed.
+Print Assumptions C01_reconstruction.
+
+(* shifting any coordinate of any frame by whole lattice vectors changes neither the
+   displacements nor the cumulative displacements (hence no distance derived from them) *)
+Theorem C01_shift_invariant : forall D, 0 < D -> forall cs ns, no_tie D cs = true -> length ns = length cs ->
+  displacements D (zip_with (fun c n => c + D * n) cs ns) = displacements D cs.
+Proof. exact shift_invariant. Qed.
+Print Assumptions C01_shift_invariant.
+Theorem C01_cumdisp_shift_invariant : forall D, 0 < D -> forall cs ns, no_tie D cs = true -> length ns = length cs ->
+  cumdisp D (zip_with (fun c n => c + D * n) cs ns) = cumdisp D cs.
+Proof. exact cumdisp_shift_invariant. Qed.
+Print Assumptions C01_cumdisp_shift_invariant.
+Theorem C01_displacements_of_positions : forall D cs, 0 < D -> no_tie D cs = true ->
+  displacements D (positions D cs) = displacements D cs.
+Proof. exact displacements_of_positions. Qed.
+Print Assumptions C01_displacements_of_positions.
+
+(* ---------- binary64: coordinates within rounding distance of a cell face ---------- *)
+Open Scope R_scope.
+Theorem C01_float_range : forall x, 0 <= wrapF x < 1.
+Proof. exact wrapF_range. Qed.
+Print Assumptions C01_float_range.
+Theorem C01_float_congr : forall x, exists k : Z, Rabs (wrapF x - (x + IZR k)) <= bpow radix2 (-53).
+Proof. exact wrapF_congr. Qed.
+Print Assumptions C01_float_congr.
+(* the code before the repair returned exactly 1.0 for tiny negative inputs: defect D1 *)
+Theorem C01_float_old_refuted : exists x, wrapF_old x = 1.
+Proof. exact wrapF_old_hits_one_refuted. Qed.
+Print Assumptions C01_float_old_refuted.
+(* the executable twin that the tie compares bit for bit with numpy computes wrapF *)
+Theorem C01_twin_correct : forall x, finiteP x -> finiteP (wrapP x) /\ P2R (wrapP x) = wrapF (P2R x).
+Proof. exact wrapP_correct. Qed.
+Print Assumptions C01_twin_correct.
